@@ -214,9 +214,13 @@ class Arrow:
     def __getitem__(self, key):
         if isinstance(key, slice):
             if key.step == -1:
-                boxes = [box[::-1] for box in self.boxes[key]]
-                return self.upgrade(
+                boxes = [box[::-1] for box in self.boxes[::-1]]
+                reverse = self.upgrade(
                     Arrow(self.cod, self.dom, boxes, _scan=False))
+                if key.start is None and key.stop is None:
+                    return reverse
+                start, stop, _ = key.indices(len(self))
+                return reverse[len(self) - 1 - start:len(self) - 1 - stop]
             if (key.step or 1) != 1:
                 raise IndexError
             boxes = self.boxes[key]
